@@ -222,6 +222,10 @@ impl<F: PrimeField> Model<F> {
                 let v = self.honest.eval(&r);
                 Self::add_term(&mut r, MV::One, -v + self.sc(d));
             }
+            Fix::BalanceAs(other) => {
+                let v = self.honest.eval(&self.row_of(other));
+                Self::add_term(&mut r, MV::One, -v);
+            }
         }
         self.rows.push(r.clone());
         r
